@@ -91,8 +91,6 @@ class Report:
         """Instance floor: a rule that binds fewer instances than confirmed by hand is analysis-broken."""
         from .front import AnalysisError
 
-        if self.only is not None and not self._floor_relevant:
-            return
         self.floors.append((what, found, minimum))
 
     def absorb_stats(self, interp):
